@@ -327,6 +327,8 @@ def loop_kwargs(name, script, cfg):
     elif name == "mrq":
         kw.update(batch_size=bs, learning_starts=ls, gamma=cfg.get("gamma", 0.9), target_delay=delay, encoder_horizon=cfg.get("encoder_horizon", 2),
                   q_horizon=cfg.get("q_horizon", 2), exploration_noise=cfg.get("exploration_noise", 0.2))
+        if cfg.get("own_buffer"):
+            kw["buffer_size"] = cfg.get("buffer_size", 64)
     elif name == "pets":
         kw.pop("progress_bar")
         kw.update(plan_horizon=2, n_particles=2, n_samples=10, n_opt_iter=2, learning_starts=min(ls, 10**6), learning_starts_gradient_steps=1,
@@ -349,7 +351,7 @@ def run(name, script, **cfg) -> Run:
     else:
         call, mods = build(name, env, cfg)
         box = cfg["_envbox"]
-    rb = cfg.get("replay_buffer") or new_buffer(name, cfg)
+    rb = None if cfg.get("own_buffer") else (cfg.get("replay_buffer") or new_buffer(name, cfg))  # own_buffer: the routine creates its buffer
     r = Run(name=name, script=script, cfg=cfg, env=env, mods=mods, rb=rb, snaps=[], result=None, error=None, logger=None, prebuilt=(call, mods, box), acting=[])
     if cfg.get("record_acting") and cfg.get("prebuilt") is None:
         if name == "pets":
